@@ -104,7 +104,7 @@ impl Property for C01 {
     fn run(&self, bytes: &[u8], _tier: Tier) -> CaseOut {
         let prog = decode(bytes);
         let fp = fnv64(format!("{:?}", prog).as_bytes());
-        let r = run_reference(&prog, 200_000);
+        let r = run_reference(&prog, 60_000);
         let labels = labels_of(&r);
         if let Some(w) = discard_reason(&r) {
             return CaseOut { verdict: Verdict::Discard(w), nontrivial: false, labels, fingerprint: fp, execs: 0 };
